@@ -253,16 +253,27 @@ theorem rtLaws : Lawful rtImpl :=
   bytesLaws.pull (fun m : Rt => m.raw) _ (fun _ _ => trivial)
     (by intro a b _ _ h; cases a; cases b; simp_all)
 
-theorem fsLaws (k : Nat) : Lawful (fsImpl k) := by
-  have base := bytesLaws.pull (fun m : Fs => m.raw) (fun m => (fsImpl k).wf m = true) (fun _ _ => trivial)
+theorem afiKey_inj (a b : Nat) (h : afiKey a = afiKey b) : a = b := by
+  unfold afiKey at h
+  repeat' split at h
+  all_goals omega
+
+theorem fsLaws : Lawful fsImpl := by
+  have base := (natLaws.lex bytesLaws).pull (fun m : Fs => (afiKey m.afi, m.raw))
+    (fun m => fsImpl.wf m = true) (fun _ _ => ⟨trivial, trivial⟩)
     (by
-      intro a b ha hb h
-      simp only [fsImpl, beq_iff_eq] at ha hb
+      intro a b _ _ h
+      simp only [Prod.mk.injEq] at h
+      have := afiKey_inj _ _ h.1
       cases a; cases b; simp_all)
   refine base.congr ?_ ?_
   · intro a b ha hb
-    simp only [fsImpl, beq_iff_eq] at ha hb ⊢
-    simp [ha, hb]
+    apply Bool.eq_iff_iff.mpr
+    rw [base.beq_iff a b ha hb]
+    simp only [fsImpl, Bool.and_eq_true, beq_iff_eq]
+    constructor
+    · intro h; cases a; cases b; simp_all
+    · intro h; subst h; exact ⟨rfl, rfl⟩
   · intro a b _ _; rfl
 
 theorem vplsLaws : Lawful vplsImpl :=
@@ -271,16 +282,19 @@ theorem vplsLaws : Lawful vplsImpl :=
     (fun _ _ => ⟨⟨⟨⟨trivial, trivial⟩, trivial⟩, trivial⟩, trivial⟩)
     (by intro a b _ _ h; cases a; cases b; simp_all)
 
-theorem rtypeKey_inj (a b : Nat) (ha : a < 256) (hb : b < 256) (h : rtypeKey a = rtypeKey b) : a = b := by
+theorem rtypeKey_inj (a b : Nat) (ha : rtypeValid a = true) (hb : rtypeValid b = true)
+    (h : rtypeKey a = rtypeKey b) : a = b := by
+  simp only [rtypeValid, Bool.or_eq_true, Bool.and_eq_true, decide_eq_true_eq] at ha hb
   unfold rtypeKey at h
-  split at h <;> split at h <;> omega
+  repeat' split at h
+  all_goals omega
 
 theorem evpnLaws : Lawful evpnImpl := by
   have base := (natLaws.lex bytesLaws).pull (fun m : Evpn => (rtypeKey m.rtype, m.raw))
     (fun m => evpnImpl.wf m = true) (fun _ _ => ⟨trivial, trivial⟩)
     (by
       intro a b ha hb h
-      simp only [evpnImpl, decide_eq_true_eq] at ha hb
+      simp only [evpnImpl] at ha hb
       simp only [Prod.mk.injEq] at h
       have := rtypeKey_inj _ _ ha hb h.1
       cases a; cases b; simp_all)
@@ -305,8 +319,8 @@ theorem famLaws (f : Fam) : Lawful (famImpl f) := by
   case v4vpn => exact vpnLaws
   case v6vpn => exact vpnLaws
   case v4rt => exact rtLaws
-  case v4fs => exact fsLaws 1
-  case v6fs => exact fsLaws 2
+  case v4fs => exact fsLaws
+  case v6fs => exact fsLaws
   case vpls => exact vplsLaws
   case evpn => exact evpnLaws
 
